@@ -46,7 +46,9 @@ fn corpus(tier: Tier) -> Vec<(String, PProblem)> {
     let req = family_reqbreak();
     let step = tier.pick(4, 1);
     out.extend(req.into_iter().step_by(step).map(|p| ("reqbreak".to_string(), p)));
+    out.extend(family_combo(2).into_iter().step_by(tier.pick(8, 1)).map(|p| ("combo".to_string(), p)));
     if tier != Tier::Quick {
+        out.extend(family_combo(3).into_iter().map(|p| ("combo".to_string(), p)));
         // NOTE: time dependent matrices are left out: the checker declares them unsupported itself
         // ("not implemented: time aware routing check"), the property speaks of the supported features
         out.extend(family_mixed10().into_iter().map(|p| ("mixed10".to_string(), p)));
@@ -321,7 +323,7 @@ fn twin_split(problem: &PProblem, cfg: &SolveCfg) -> Option<Mutant> {
 
 fn judge_pair(family: &str, problem: &PProblem, cfg: &SolveCfg, report: &mut Report) {
     let Ok(solved) = solve(problem, cfg, None, None) else { return };
-    let tol = if family == "scale" { 1. } else { 0. };
+    let tol = oracle::tolerance(family, problem);
     let mut base_findings = oracle::check(problem, &solved.json, &OracleOptions { tol });
     if family == "reqbreak" {
         base_findings.retain(|f| f.rule.starts_with("C02:") || f.rule.starts_with("C01:required-break") || f.rule == "C01:capacity");
